@@ -194,3 +194,17 @@ PROPS["C10"] = {
     "trusted": CLIENT_TRUSTED,
     "assumptions": ["'the error chain contains the port's error' is observed with errors.As on the harness's port error type; 'carries the validation failure as its cause' = errors.Unwrap is non-nil and the text has no %!w(<nil>)"],
 }
+
+PROPS["C12"] = {
+    "level_text": "Theorems (Props/C12.v) over functions and tables REGENERATED from source on every run - DataSize, SetUint16, the dispatch switch of Client.MeasurementData, each encoder's NewMTData2Package size, each decoder's binary.Read destination layout: for all 65536 wire identifiers (complete kernel sweep) the advertised size = encoder size = size of the value the decoder reads (its minimum: binary.Read fails exactly on shorter input) = the protocol's size, and it is non-zero exactly when the client dispatches the type; decoder layouts equal the protocol's layout table at every precision; fixed-layout encoders store the decoder's fields at the decoder's offsets. Exhaustive correspondence over the 65536 identifiers through the public API.",
+    "level_note": "Trusted: Coq kernel + vm_compute; the translator (expressions, switch tables, layouts); 'binary.Read accepts iff the data has at least the value's size' (encoding/binary); the protocol table transcribed in Spec/LayoutSpec.v; harness. No axioms.",
+    "technique": "Rocq proof by complete vm_compute sweep over translator-generated Gallina tables + exhaustive correspondence",
+    "props_file": "Props/C12.v",
+    "tie_files": ["Tie/LayoutsAgree.v"],
+    "eval_module": "Run.EvalSizes",
+    "kinds": {"size": {"type": "case_size", "chk": "chk_size", "sig": "sig_size", "scope": "Z_scope"}},
+    "exhaustive": True,
+    "rule": "for each of the 65536 wire identifiers: DataSize(); a measurement message holding one packet of that identifier with DataSize zero bytes is received by a real client: ScanMeasurementData result, MeasurementData() non-nil, the data length of MarshalMTData2Packet by the dispatched value, and whether a fresh value of the same type decodes DataSize and DataSize-1 bytes. non-trivial = the client dispatches the type; distinct = distinct case terms",
+    "trusted": ["encoding/binary.Read size rule"],
+    "assumptions": ["GNSSSatInfo: only the 8-byte header is decoded (the satellite list is ignored by the library)"],
+}
